@@ -9,6 +9,11 @@ VERIF = os.path.dirname(os.path.dirname(os.path.abspath(__file__)))
 sys.path.insert(0, os.path.join(VERIF, "lib"))
 
 CLAIMED = {
+    "C05": dict(
+        text="TLC explores every interleaving of the worker/consumer actions of spec/Pipe.tla (one action per segment between two shared-memory accesses of the real worker loop) for small thread counts and all upstream lengths and checks order, exactly-once, completeness and termination under fairness; the spec is bound to the code in both directions: an edge cover of each explored state graph is replayed as controlled schedules on the real Pipe through guarded schedule-point hooks, and seeded random controlled schedules and free-running executions are recorded and validated by TLC (property monitor Trace_PipeObs on observables; mechanism conformance Trace_Pipe with lazily placed silent steps, Pipe's invariants checked on every reconstructed state).",
+        note="Bounded: MC W<=3,N<=3 quick / W<=4,N<=4 thorough; replayed graphs up to (2,3) quick / (3,3) thorough; random runs W<=4, N<=40. Trusted: SeqCst atomics and std mpsc linearizable, hooks only at schedule points (a race inside one segment is only reachable by the free-running runs), 1.5 s no-progress time-out (re-run once).",
+        technique="TLA+ spec of the ticket/turn/channel protocol model-checked with TLC; state-graph edge cover replayed as controlled thread schedules; recorded executions validated by TLC trace specs",
+        ref="6 C05"),
     "C12": dict(
         text="TLC explores the alignment machine of spec/EditDist.tla for all text pairs up to length 3 over a whitespace and two other symbols and all flag combinations and checks in every state that the row-DP of the mechanism layer is the least alignment cost (Bellman conditions), termination and the range/prefix consequences; the spec is bound to the code by replaying the TLC-enumerated input space (all pairs up to length 3/4 x flags x 4 concretisations incl. multi-byte and grapheme clusters) and seeded random pairs up to 14 characters through distance/distances/prefix_distance/operations and validating every recorded call with Trace_EditDist (exact distance, exact rational for the normalised value, script is an Align behaviour of cost D).",
         note="Bounded: MC up to length 3, replay up to length 4, random up to 14. Trusted: unicode-segmentation and char::is_whitespace for the view; float vs rational tolerance 1e-6; TLC.",
